@@ -875,3 +875,20 @@ package websocket
 //@ loop 3 invariant len(p) >= 127 && forall(i, 0, 97, p[i] == "HTTP/1.1 101 Switching Protocols\r\nUpgrade: websocket\r\nConnection: Upgrade\r\nSec-WebSocket-Accept: "[i]) && forall(i, 0, 28, p[97+i] == ak[i]) && p[125] == '\r' && p[126] == '\n'
 //@ loop 5 invariant len(p) >= 127 && forall(i, 0, 97, p[i] == "HTTP/1.1 101 Switching Protocols\r\nUpgrade: websocket\r\nConnection: Upgrade\r\nSec-WebSocket-Accept: "[i]) && forall(i, 0, 28, p[97+i] == ak[i]) && p[125] == '\r' && p[126] == '\n'
 //@ loop 6 invariant len(p) >= 127 && forall(i, 0, 97, p[i] == "HTTP/1.1 101 Switching Protocols\r\nUpgrade: websocket\r\nConnection: Upgrade\r\nSec-WebSocket-Accept: "[i]) && forall(i, 0, 28, p[97+i] == ak[i]) && p[125] == '\r' && p[126] == '\n'
+
+//@ func (*brNetConn).Read
+//@ tags C07 C17
+//@ results n err
+//@ requires imp(b.br != nil, b.br.g_buffered >= 0 && b.br.g_buf > 0 && region(p) != b.br.g_buf)
+//@ modifies b.br, mem(p), b.br.g_rd, b.br.g_buffered, regionid(b.br.g_buf)
+//@ ensures[C17.buffered] imp(old(b.br) != nil && old(b.br.g_buffered) > 0 && len(p) > 0, err == nil && n > 0 && n <= old(b.br.g_buffered) && \
+//@     old(b.br).g_rd == old(b.br.g_rd) + n && forall(i, 0, n, p[i] == old(b.br).g_in[old(b.br.g_rd) + i]))
+//@ ensures[C17.switch] imp(old(b.br) != nil, iff(b.br == nil, old(b.br).g_buffered == 0))
+//@ ensures[C17.stay] imp(old(b.br) != nil && b.br != nil, b.br == old(b.br))
+
+//@ func (net.Conn).Read
+//@ params conn p
+//@ results n err
+//@ trusted
+//@ modifies mem(p)
+//@ ensures 0 <= n && n <= len(p)
